@@ -748,7 +748,26 @@ package soyhtml
 //@   at call (Renderer).Execute#0 assume arg0.tofu != nil && arg0.tofu.registry != nil ==> registryOK(arg0.tofu.registry)
 //@   ghost ran bool = false
 //@   ghost ge error = nil
+//@   at call soyhtml.convert#0 assert[the-caller's-object-is-converted-under-a-recover;C06] arg0 == obj
+//@   at call data.New#* forbid[no-conversion-outside-the-recover;C06] false
+//@   at call data.NewWith#* forbid[no-conversion-outside-the-recover;C06] false
 //@   at call (Renderer).Execute#0 assert[renders-into-the-caller's-writer;C12] arg1 == wr
 //@   at call (Renderer).Execute#0 after set ge = res
 //@   at call (Renderer).Execute#0 after set ran = true
 //@   ensures[the-render's-error-is-returned-unchanged;C12] ran ==> result == ge
+
+// C06: converting the caller's object cannot panic out of Render: data.New's
+// conversion panics (types without a Soy representation) are recovered here and
+// become the returned error.
+//@ func convert
+//@   props C06
+//@   nosafety
+//@   modifies *
+//@   recoverby soyhtml.convert$1
+//@ func convert$1
+//@   props C06
+//@   handler
+//@   nosafety
+//@   ghost recd bool = false
+//@   at call recover#0 after set recd = res != nil
+//@   ensures[a-recovered-conversion-panic-becomes-the-returned-error;C06] recd ==> err != nil
